@@ -25,11 +25,40 @@ static int pg_live[NP], net_live[NN], ca_live;
 static unsigned pg_size[NP];
 static unsigned n_alloc, n_free;
 
+/* Every page allocation of one run has the same size class C10_PSIZE (grid): the pool slots are exact-size
+ * objects, so running off the end of an allocation is a bounds failure.  Under CBMC a slot is a struct with
+ * the layout of the cache_page header followed by a plain byte array: the real cache_page type (4504 bytes,
+ * 14 K scalar fields after field expansion) made symex re-assign every field on each byte-wise access
+ * (measured: 900 K SSA steps, 110 s for the builder alone). */
+#ifndef C10_PSIZE
+#define C10_PSIZE 1564            /* LOP: header 88 + struct ttx_lop 1476 */
+#endif
+#ifndef C10_FN
+#define C10_FN PAGE_FUNCTION_LOP  /* a page function whose cache_page_size() is C10_PSIZE (checked) */
+#endif
+#ifndef C10_FN2
+#define C10_FN2 C10_FN            /* a second function of the same size class (e.g. UNKNOWN for LOP) */
+#endif
+#ifndef C10_X26
+#define C10_X26 0
+#endif
+#ifndef C10_X28
+#define C10_X28 0
+#endif
+struct __attribute__((packed)) c10_page {
+  struct node hash_node, pri_node; cache_network *network; unsigned ref_count; cache_priority priority;
+  enum ttx_page_function function; vbi_pgno pgno; vbi_subno subno; int national;
+  unsigned flags, lop_packets, x26_designations, x27_designations, x28_designations, pad_;
+  uint8_t data[C10_PSIZE - 88];
+};
+typedef char c10_layout_check[(sizeof(struct c10_page) == C10_PSIZE && offsetof(struct c10_page, data) == offsetof(cache_page, data)
+  && offsetof(struct c10_page, x28_designations) == offsetof(cache_page, x28_designations) && offsetof(struct c10_page, pgno) == offsetof(cache_page, pgno)
+  && offsetof(struct c10_page, network) == offsetof(cache_page, network) && offsetof(struct c10_page, priority) == offsetof(cache_page, priority)) ? 1 : -1];
 #ifdef VERIF_CBMC
-#ifdef C10_EXACT
-static struct { _Alignas(16) uint8_t b[C10_EXACT]; } PGO0, PGO1, PGO2, PGO3;
+#ifdef C10_TYPED
+static cache_page PGO0, PGO1, PGO2, PGO3, SRCO;
 #else
-static cache_page PGO0, PGO1, PGO2, PGO3;
+static _Alignas(8) struct c10_page PGO0, PGO1, PGO2, PGO3, SRCO;
 #endif
 static cache_network NTO0, NTO1, NTO2;
 static vbi_cache CAO;
@@ -62,9 +91,7 @@ static void *c10_alloc(size_t size)
     return NULL;
   }
   V_ASSERT(size >= sizeof(cache_page) - sizeof(((cache_page *) 0)->data) && size <= sizeof(cache_page), "alloc_size_is_a_page_size");
-#ifdef C10_EXACT
-  V_ASSERT(size == C10_EXACT, "alloc_size_is_the_configured_page_size");
-#endif
+  V_ASSERT(size == C10_PSIZE, "alloc_size_is_the_configured_page_size");
   for (i = 0; i < NP; i++) if (!pg_live[i]) {
     pg_live[i] = 1; pg_size[i] = (unsigned) size; n_alloc++;
 #ifdef VERIF_CBMC
@@ -131,6 +158,11 @@ struct view {
   struct ttx_page_stat st[NN][NA];
 };
 
+#ifndef EXP_NO_M0
+#define M0_OF(cp) (*(const uint8_t *) &(cp)->data)
+#else
+#define M0_OF(cp) 0
+#endif
 #define K_HASH 0
 #define K_PRI 1
 #define K_NET 2
@@ -189,6 +221,11 @@ static unsigned ref_size(int fn, unsigned x26, unsigned x28)
 }
 
 /* The representation invariant, evaluated on the real memory.  Returns 1 iff it holds; fills *v. */
+#if defined(VERIF_NATIVE) && defined(C10_DEBUG)
+#define CHK(c) do { if (!(c)) { ok = 0; fprintf(stderr, "audit: line %d: %s\n", __LINE__, #c); } } while (0)
+#else
+#define CHK(c) (ok &= (c))
+#endif
 static int audit(struct view *v)
 {
   int ok = 1, i, n, a, k, cnt_h[NP], cnt_p[NP], cnt_r[NP], cnt_n[NN], nlive = 0, nnets = 0, nnz = 0;
@@ -198,35 +235,35 @@ static int audit(struct view *v)
   for (i = 0; i < NP; i++) cnt_h[i] = cnt_p[i] = cnt_r[i] = 0;
   for (n = 0; n < NN; n++) cnt_n[n] = 0;
   /* networks list */
-  ok &= walk(&CA->networks, K_NET, NN, v->ns, &v->nn);
+  CHK(walk(&CA->networks, K_NET, NN, v->ns, &v->nn));
   for (k = 0; k < NN; k++) if (k < v->nn) cnt_n[v->ns[k]]++;
   for (n = 0; n < NN; n++) {
     v->n_live[n] = net_live[n];
     if (!net_live[n]) continue;
     nnets++;
-    ok &= cnt_n[n] == 1;
-    ok &= net_ptr[n]->cache == CA;
+    CHK(cnt_n[n] == 1);
+    CHK(net_ptr[n]->cache == CA);
     v->n_ref[n] = (int) net_ptr[n]->ref_count; v->n_zombie[n] = net_ptr[n]->zombie;
     v->n_cached[n] = net_ptr[n]->n_cached_pages; v->n_refd[n] = net_ptr[n]->n_referenced_pages; v->n_maxc[n] = net_ptr[n]->max_cached_pages;
-    ok &= net_ptr[n]->zombie == 0 || net_ptr[n]->zombie == 1;
+    CHK(net_ptr[n]->zombie == 0 || net_ptr[n]->zombie == 1);
     if (!net_ptr[n]->zombie) nnz++;
     for (a = 0; a < NA; a++) v->st[n][a] = net_ptr[n]->_pages[PGA[a] - 0x100];
   }
-  ok &= v->nn == nnets;
-  v->ca_nets = CA->n_cached_networks; ok &= CA->n_cached_networks == (unsigned) nnz;
+  CHK(v->nn == nnets);
+  v->ca_nets = CA->n_cached_networks; CHK(CA->n_cached_networks == (unsigned) nnz);
   /* hash chains: the alphabet buckets are walked, every other head must be empty */
   for (a = 0; a < NA; a++) if (bucket_first(a) == a) {
-    ok &= walk(&CA->hash[PGA[a] % HASH_SIZE], K_HASH, NP, v->hs[a], &v->hn[a]);
+    CHK(walk(&CA->hash[PGA[a] % HASH_SIZE], K_HASH, NP, v->hs[a], &v->hn[a]));
     for (k = 0; k < NP; k++) if (k < v->hn[a]) cnt_h[v->hs[a][k]]++;
   }
   for (k = 0; k < HASH_SIZE; k++) {
     int alpha = 0;
     for (a = 0; a < NA; a++) if (PGA[a] % HASH_SIZE == k) alpha = 1;
-    if (!alpha) ok &= CA->hash[k]._succ == &CA->hash[k] && CA->hash[k]._pred == &CA->hash[k];
+    if (!alpha) CHK(CA->hash[k]._succ == &CA->hash[k] && CA->hash[k]._pred == &CA->hash[k]);
   }
-  ok &= walk(&CA->priority, K_PRI, NP, v->ps, &v->pn);
+  CHK(walk(&CA->priority, K_PRI, NP, v->ps, &v->pn));
   for (k = 0; k < NP; k++) if (k < v->pn) cnt_p[v->ps[k]]++;
-  ok &= walk(&CA->referenced, K_PRI, NP, v->rs, &v->rn);
+  CHK(walk(&CA->referenced, K_PRI, NP, v->rs, &v->rn));
   for (k = 0; k < NP; k++) if (k < v->rn) cnt_r[v->rs[k]]++;
   /* pages */
   for (i = 0; i < NP; i++) {
@@ -235,28 +272,28 @@ static int audit(struct view *v)
     if (!pg_live[i]) continue;
     cp = pg_ptr[i]; nlive++;
     v->p_ref[i] = (int) cp->ref_count; v->p_pri[i] = (int) cp->priority; v->p_pgno[i] = cp->pgno; v->p_subno[i] = cp->subno;
-    v->p_fn[i] = (int) cp->function; v->p_nat[i] = cp->national; v->p_flags[i] = cp->flags; v->p_m0[i] = *(const uint8_t *) &cp->data;
+    v->p_fn[i] = (int) cp->function; v->p_nat[i] = cp->national; v->p_flags[i] = cp->flags; v->p_m0[i] = M0_OF(cp);
     v->p_net[i] = net_index(cp->network);
     v->p_size[i] = ref_size((int) cp->function, cp->x26_designations, cp->x28_designations);
-    ok &= v->p_size[i] == pg_size[i];                      /* the allocation has exactly the size the page needs */
-    ok &= v->p_net[i] >= 0;                                /* network pointer of a live page is a live network */
-    ok &= key_ok(cp->pgno, cp->subno);
-    ok &= pga_index(cp->pgno) >= 0;                        /* (harness alphabet) */
-    ok &= cp->priority == CACHE_PRI_ZOMBIE || cp->priority == CACHE_PRI_NORMAL || cp->priority == CACHE_PRI_SPECIAL;
+    CHK(v->p_size[i] == pg_size[i]);                      /* the allocation has exactly the size the page needs */
+    CHK(v->p_net[i] >= 0);                                /* network pointer of a live page is a live network */
+    CHK(key_ok(cp->pgno, cp->subno));
+    CHK(pga_index(cp->pgno) >= 0);                        /* (harness alphabet) */
+    CHK(cp->priority == CACHE_PRI_ZOMBIE || cp->priority == CACHE_PRI_NORMAL || cp->priority == CACHE_PRI_SPECIAL);
     if (cp->priority == CACHE_PRI_ZOMBIE) {                /* zombie: replaced/dropped while referenced */
-      ok &= cp->ref_count > 0;
-      ok &= cnt_h[i] == 0;
+      CHK(cp->ref_count > 0);
+      CHK(cnt_h[i] == 0);
     } else {                                               /* on the chain of its bucket, exactly once */
-      ok &= cnt_h[i] == 1;
-      for (a = 0; a < NA; a++) if (bucket_first(a) == a) for (k = 0; k < NP; k++) if (k < v->hn[a] && v->hs[a][k] == i) ok &= PGA[a] % HASH_SIZE == cp->pgno % HASH_SIZE;
+      CHK(cnt_h[i] == 1);
+      for (a = 0; a < NA; a++) if (bucket_first(a) == a) for (k = 0; k < NP; k++) if (k < v->hn[a] && v->hs[a][k] == i) CHK(PGA[a] % HASH_SIZE == cp->pgno % HASH_SIZE);
     }
-    if (cp->ref_count == 0) { ok &= cnt_p[i] == 1 && cnt_r[i] == 0; mem += v->p_size[i]; }
-    else { ok &= cnt_p[i] == 0 && cnt_r[i] == 1; }
+    if (cp->ref_count == 0) { CHK(cnt_p[i] == 1 && cnt_r[i] == 0); mem += v->p_size[i]; }
+    else { CHK(cnt_p[i] == 0 && cnt_r[i] == 1); }
   }
-  v->ca_pages = CA->n_cached_pages; ok &= CA->n_cached_pages == (unsigned) nlive;
+  v->ca_pages = CA->n_cached_pages; CHK(CA->n_cached_pages == (unsigned) nlive);
   v->ca_mem = CA->memory_used; v->ca_limit = CA->memory_limit; v->ca_ref = CA->ref_count;
-  ok &= CA->memory_used == mem;
-  ok &= CA->memory_used <= CA->memory_limit;
+  CHK(CA->memory_used == mem);
+  CHK(CA->memory_used <= CA->memory_limit);
   /* per network / per page number statistics */
   for (n = 0; n < NN; n++) if (net_live[n]) {
     unsigned c = 0, r = 0, sub[NA];
@@ -265,13 +302,13 @@ static int audit(struct view *v)
       c++; if (v->p_ref[i] > 0) r++;
       for (a = 0; a < NA; a++) if (PGA[a] == v->p_pgno[i]) sub[a]++;
     }
-    ok &= v->n_cached[n] == c;
-    ok &= v->n_refd[n] == r;
-    ok &= v->n_maxc[n] >= c;
-    if (v->n_zombie[n]) ok &= v->n_ref[n] > 0 || r > 0;    /* a zombie network exists only while something holds it */
+    CHK(v->n_cached[n] == c);
+    CHK(v->n_refd[n] == r);
+    CHK(v->n_maxc[n] >= c);
+    if (v->n_zombie[n]) CHK(v->n_ref[n] > 0 || r > 0);    /* a zombie network exists only while something holds it */
     for (a = 0; a < NA; a++) {
-      ok &= v->st[n][a].n_subpages == sub[a];
-      ok &= v->st[n][a].max_subpages >= sub[a];
+      CHK(v->st[n][a].n_subpages == sub[a]);
+      CHK(v->st[n][a].max_subpages >= sub[a]);
     }
   }
   return ok;
@@ -287,9 +324,6 @@ static void ins_at(struct node *l, struct node *n, unsigned pos)
 
 static struct { int live, net, pgno, subno, fn, ref, zombie; } SP[NP];
 
-#ifndef C10_FN_ALT
-#define C10_FN_ALT PAGE_FUNCTION_AIT
-#endif
 /* page number of each page slot: index into the alphabet, CONCRETE (runner grid) - the bucket a page hangs on
  * selects one of 113 list heads inside the cache object; a symbolic selection makes every list access a
  * symbolic-offset access into that object (AGENT_BRIEF rule 2) */
@@ -356,20 +390,31 @@ static void build_state(int max_pages)
     if (i >= max_pages) live = 0;
     V_ASSUME(net < NN && ref <= 2 && zombie <= 1 && (!zombie || ref > 0) && pri <= 1 && posh <= NP && posp <= NP && fnsel <= 1);
     if (live) V_ASSUME(net_live[net] && key_ok(pgno, (int) subno));
-    fn = fnsel ? C10_FN_ALT : PAGE_FUNCTION_LOP; size = ref_size(fn, 0, 0);
+    fn = fnsel ? (int) (C10_FN2) : (int) (C10_FN); size = C10_PSIZE;
     cp = (cache_page *) take_page(i, size, (int) live);
     SP[i].live = (int) live;
     if (!live) continue;
     cn = net_ptr[net]; ps = &cn->_pages[pgno - 0x100];
     cp->network = cn; cp->ref_count = ref; cp->priority = zombie ? CACHE_PRI_ZOMBIE : (pri ? CACHE_PRI_SPECIAL : CACHE_PRI_NORMAL);
-    cp->function = (enum ttx_page_function) fn; cp->pgno = pgno; cp->subno = (int) subno; cp->national = (int) nat; cp->flags = flags;
+    cp->function = (enum ttx_page_function) fn; cp->pgno = pgno; cp->subno = (int) subno; cp->national = (int) nat; cp->flags = flags; cp->x26_designations = C10_X26; cp->x28_designations = C10_X28;
+#ifndef EXP_NO_M0
     *(uint8_t *) &cp->data = (uint8_t) m0;
+#endif
     if (!zombie) ins_at(&CA->hash[pgno % HASH_SIZE], &cp->hash_node, posh);
     if (ref > 0) { ins_at(&CA->referenced, &cp->pri_node, posp); cn->n_referenced_pages++; }
     else { ins_at(&CA->priority, &cp->pri_node, posp); CA->memory_used += size; }
     CA->n_cached_pages++; cn->n_cached_pages++; ps->n_subpages++;
     SP[i].net = (int) net; SP[i].pgno = pgno; SP[i].subno = (int) subno; SP[i].fn = fn; SP[i].ref = (int) ref; SP[i].zombie = (int) zombie;
   }
+  /* the history-dependent parts of the invariant that are free inputs: high-water marks, and a zombie network
+   * exists only while somebody holds it or one of its pages */
+  for (n = 0; n < NN; n++) if (net_live[n]) {
+    const cache_network *cn = net_ptr[n];
+    V_ASSUME(cn->max_cached_pages >= cn->n_cached_pages);
+    V_ASSUME(!cn->zombie || cn->ref_count > 0 || cn->n_referenced_pages > 0);
+    for (a = 0; a < NA; a++) V_ASSUME(cn->_pages[PGA[a] - 0x100].max_subpages >= cn->_pages[PGA[a] - 0x100].n_subpages);
+  }
+  V_ASSERT(ref_size((int) (C10_FN), C10_X26, C10_X28) == C10_PSIZE && ref_size((int) (C10_FN2), C10_X26, C10_X28) == C10_PSIZE, "grid_function_matches_size_class");
 }
 
 /* first page on the chain of alphabet entry a's bucket (pre view order) that matches (net, pgno, subno under mask) */
@@ -531,33 +576,38 @@ V_HARNESS(h_get)
 }
 
 /* _vbi_cache_put_page */
-static cache_page SRC;
-#ifndef C10_PUT_FN
-#define C10_PUT_FN PAGE_FUNCTION_LOP
+#define C10_PUT_FN C10_FN
+#define C10_PUT_X26 C10_X26
+#define C10_PUT_X28 C10_X28
+static cache_page *SRCP;            /* exact-size source object: reading beyond cache_page_size(src) is a bounds failure */
+#define SRC (*SRCP)
+static void src_new(void)
+{
+#ifdef VERIF_CBMC
+  SRCP = (cache_page *) &SRCO;
+#else
+  SRCP = (cache_page *) calloc(1, C10_PSIZE);
 #endif
-#ifndef C10_PUT_X26
-#define C10_PUT_X26 0
-#endif
-#ifndef C10_PUT_X28
-#define C10_PUT_X28 0
-#endif
+}
 V_HARNESS(h_put)
 {
   unsigned nsel, psel, size; int pgno, subno, s2, mask, v, ri, i, a, net, ab, vfree; cache_page *r; uint8_t m0, mlast;
   V_INIT();
   build_state(NP - 1);
+  src_new();
   nsel = in_u8(); subno = (int) in_u16(); SRC.national = (int) in_u8(); SRC.flags = in_u32(); SRC.lop_packets = in_u32(); m0 = in_u8(); mlast = in_u8();
   V_ASSUME(nsel < NN && net_live[nsel] && (subno & ~0x3F7F) == 0);
   psel = C10_P;
   pgno = psel < NA ? PGA[psel] : 0x1FF;
   SRC.function = (enum ttx_page_function) (C10_PUT_FN); SRC.x26_designations = C10_PUT_X26; SRC.x28_designations = C10_PUT_X28;
   size = ref_size((int) (C10_PUT_FN), C10_PUT_X26, C10_PUT_X28);
+  V_ASSERT(size == C10_PSIZE, "grid_function_matches_size_class");
   SRC.pgno = pgno; SRC.subno = subno;
-  ((uint8_t *) &SRC)[offsetof(cache_page, data)] = m0; ((uint8_t *) &SRC)[size - 1] = mlast;
+  ((uint8_t *) SRCP)[offsetof(cache_page, data)] = m0; ((uint8_t *) SRCP)[C10_PSIZE - 1] = mlast;
   V_ASSERT(audit(&V0), "pre_audit");
   net = (int) nsel;
 
-  r = _vbi_cache_put_page(CA, net_ptr[nsel], &SRC);
+  r = _vbi_cache_put_page(CA, net_ptr[nsel], SRCP);
 
   V_ASSERT(audit(&V1), "post_audit");
   if (psel >= NA) {
@@ -569,7 +619,7 @@ V_HARNESS(h_put)
     ri = -1; for (i = 0; i < NP; i++) if (pg_live[i] && r == pg_ptr[i]) ri = i;
     V_ASSERT(r != NULL && ri >= 0, "put_returns_live_page");
     V_ASSERT(V1.p_pgno[ri] == pgno && V1.p_subno[ri] == s2 && V1.p_fn[ri] == (int) (C10_PUT_FN) && V1.p_nat[ri] == SRC.national && V1.p_flags[ri] == SRC.flags
-             && V1.p_m0[ri] == m0 && ((const uint8_t *) r)[size - 1] == mlast && r->lop_packets == SRC.lop_packets && r->x26_designations == C10_PUT_X26
+             && V1.p_m0[ri] == m0 && ((const uint8_t *) r)[C10_PSIZE - 1] == mlast && r->lop_packets == SRC.lop_packets && r->x26_designations == C10_PUT_X26
              && r->x28_designations == C10_PUT_X28 && V1.p_net[ri] == net && V1.p_ref[ri] == 1 && V1.p_size[ri] == size, "put_stores_copy_under_normalised_key");
     if ((pgno & 0xFF) == 0) V_ASSERT(V1.p_pri[ri] == CACHE_PRI_SPECIAL, "put_magazine_start_page_is_special");
     vfree = v >= 0 && V0.p_ref[v] == 0;
@@ -688,5 +738,14 @@ V_HARNESS(h_unref)
     }
     V_ASSERT(netseq_without(&V0, &V1, GN, 0) && V1.ca_nets == V0.ca_nets, "unref_network_list");
   }
+  V_END();
+}
+
+/* the builder alone: every constructed state satisfies the invariant (sanity of the generator) */
+V_HARNESS(h_build)
+{
+  V_INIT();
+  build_state(NP);
+  V_ASSERT(audit(&V0), "pre_audit");
   V_END();
 }
